@@ -442,14 +442,22 @@ func crashSite(summary string) string {
 	case strings.Contains(summary, "panic:"):
 		class = "panic"
 	}
-	frame := "?"
-	for _, l := range strings.Split(summary, "\n") {
+	frame := "harness"
+	// look only at the goroutine that was running when the process died
+	body := summary
+	if i := strings.Index(body, "[running]:"); i >= 0 {
+		body = body[i:]
+		if j := strings.Index(body, "\n\n"); j >= 0 {
+			body = body[:j]
+		}
+	}
+	for _, l := range strings.Split(body, "\n")[1:] {
 		if strings.HasPrefix(l, "\t") || l == "" {
 			continue
 		}
-		if strings.HasPrefix(l, "runtime.") || strings.HasPrefix(l, "runtime/") || strings.HasPrefix(l, "goroutine ") ||
-			strings.HasPrefix(l, "fatal error") || strings.HasPrefix(l, "panic") || strings.HasPrefix(l, "[") ||
-			strings.HasPrefix(l, "verif/") || strings.HasPrefix(l, "main.") || strings.HasPrefix(l, "created by") {
+		if strings.HasPrefix(l, "runtime.") || strings.HasPrefix(l, "runtime/") || strings.HasPrefix(l, "internal/") ||
+			strings.HasPrefix(l, "verif/") || strings.HasPrefix(l, "main.") || strings.HasPrefix(l, "created by") ||
+			strings.HasPrefix(l, "sync.") || strings.HasPrefix(l, "panic(") {
 			continue
 		}
 		if i := strings.LastIndex(l, "("); i > 0 && strings.Contains(l, ".") {
